@@ -20,8 +20,8 @@ KINDS = ("loc", "pos", "read")  # Locatable / has .position / read-only
 RULE = (
     "G+E: programs rel_set, mvr (1 and 2 motors), relative_set_wrapper (devices=None and a subset; two successive moves of the "
     "same motor), reset_positions_wrapper (devices=None and a subset; one motor moved only inside a nested wrapped plan), "
-    "reset_positions_wrapper(relative_set_wrapper(..)), rel_scan (1 and 2 motors), rel_list_scan, rel_grid_scan (thorough adds "
-    "rel_list_grid_scan, rel_log_scan, x2x_scan); initial positions and offsets from {-2,0,1.5}; motors of three kinds (Locatable, "
+    "reset_positions_wrapper(relative_set_wrapper(..)), rel_scan (1 and 2 motors), rel_list_scan, rel_grid_scan, "
+    "rel_list_grid_scan, rel_log_scan, x2x_scan; initial positions and offsets from {-2,0,1.5}; motors of three kinds (Locatable, "
     "`.position`, read-only). Part G: responder run plus an exception (RuntimeError, RequestStop, RequestAbort) thrown at every "
     "body message. Part E: real RunEngine, clean run plus a fault (raise / failed status) at every body device operation plus an "
     "injected abort / stop at every event-loop position before clean-up. Oracle: per affected motor the commanded targets are "
@@ -50,7 +50,7 @@ GRID = {
         "E_inits2": ((1.5, -2),),
         "E_offs": ((-2, 1.5), (1.5, 0)),
         "E_kinds2": (("loc", "loc"), ("pos", "read"), ("read", "pos")),
-        "extra_programs": (),
+        "extra_programs": ("rel_list_grid_scan", "rel_log_scan", "x2x_scan"),
     },
     "thorough": {
         "inits1": VALS,
